@@ -108,7 +108,11 @@ func quiescent(d []ginfo) bool {
 
 // settle waits until no goroutine of the library or the harness can run.
 func settle() ([]ginfo, error) {
-	deadline := time.Now().Add(5 * time.Second)
+	// The bound is generous and the polling backs off: every dump stops the world, and on a machine
+	// with far more runnable threads than cores a goroutine that is merely waiting for a processor
+	// was once seen "runnable" for 5 s while this loop kept stopping the world (thorough tier, load
+	// average 60 on 16 cores).  A goroutine that really spins stays runnable for the whole bound.
+	deadline := time.Now().Add(20 * time.Second)
 	for i := 0; ; i++ {
 		runtime.Gosched()
 		d := dump()
@@ -127,10 +131,17 @@ func settle() ([]ginfo, error) {
 					fmt.Fprintf(&sb, "%d:%s ", g.id, g.state)
 				}
 			}
-			return d, fmt.Errorf("no quiescence within 5s: %s", sb.String())
+			return d, fmt.Errorf("no quiescence within 20s: %s", sb.String())
 		}
 		if i > 20 {
-			time.Sleep(50 * time.Microsecond)
+			pause := 50 * time.Microsecond
+			if i > 200 {
+				pause = time.Millisecond
+			}
+			if i > 1000 {
+				pause = 10 * time.Millisecond
+			}
+			time.Sleep(pause)
 		}
 	}
 }
@@ -299,7 +310,7 @@ func genC10(o *vcoq.Out, r *vcoq.Rand, tier string) error {
 	}
 	nRes := 450
 	if tier == "thorough" {
-		nRes = 9000
+		nRes = 6000
 	}
 	if onlyFamily != "" && onlyFamily != "res" {
 		nRes = 0
